@@ -755,3 +755,94 @@ m('C03','benign-nack-rename',R,
   '\t\t\tl := track.remote.GetPacket(seqno, buf, true)\n\t\t\tif l == 0 {\n\t\t\t\treturn true\n\t\t\t}\n\t\t\t_, err := track.Write(buf[:l])',
   '\t\t\tlength := track.remote.GetPacket(seqno, buf, true)\n\t\t\tif length < 1 {\n\t\t\t\treturn true\n\t\t\t}\n\t\t\t_, err := track.Write(buf[:length])',
   '','','renamed count, equivalent miss test',benign=True)
+# ---------------- C20 ----------------
+DW='diskwriter/diskwriter.go'
+m('C20','fetch-whole-buffer',DW,
+  '\terr := p.Unmarshal(buf[:n])','\terr := p.Unmarshal(buf)',
+  'R20.1','UpTrack.GetPacket in diskwriter.fetch use','F-G regression: recovered packets padded to the buffer size',quick=True)
+m('C20','fetch-ignores-miss',DW,
+  '\tn := t.remote.GetPacket(seqno, buf, false)\n\tif n == 0 {\n\t\treturn\n\t}','\tn := t.remote.GetPacket(seqno, buf, false)',
+  'R20.1','UpTrack.GetPacket in diskwriter.fetch use','a cache miss pushes an empty packet')
+m('C20','write-parses-in-place',DW,
+  '\tdata := make([]byte, len(buf))\n\tcopy(data, buf)\n\tp := new(rtp.Packet)\n\terr := p.Unmarshal(data)','\tp := new(rtp.Packet)\n\terr := p.Unmarshal(buf)',
+  'R20.2','buffer parsed in','the sample builder retains slices of the writer loop\'s reused buffer',quick=True)
+m('C20','write-short-copy',DW,
+  '\tdata := make([]byte, len(buf))\n\tcopy(data, buf)','\tdata := make([]byte, len(buf))\n\tcopy(data, buf[:12])',
+  'R20.2','buffer parsed in','only the header is copied: payload of zeroes')
+m('C20','fetch-shared-buffer',DW,
+  '\tbuf := make([]byte, 1504)\n\tn := t.remote.GetPacket(seqno, buf, false)','\tbuf := fetchBuf[:]\n\tn := t.remote.GetPacket(seqno, buf, false)',
+  'R20.2','buffer parsed in','recovery buffer shared between invocations',
+  ) if False else None
+m('C20','shared-packet',DW,
+  '\tp := new(rtp.Packet)\n\terr := p.Unmarshal(buf[:n])','\tp := t.savedKf\n\tif p == nil {\n\t\tp = new(rtp.Packet)\n\t}\n\terr := p.Unmarshal(buf[:n])',
+  'R20.2','packet passed to writeRTP in','recovered packet parsed over the saved keyframe')
+m('C20','close-without-flush',DW,
+  '\t\tt.writeBuffered(true)\n\t\tif t.writer != nil {','\t\tif t.writer != nil {',
+  'R20.3','close: flush before closing','buffered frames lost at the end of the recording',quick=True)
+m('C20','close-soft-flush',DW,
+  '\t\tt.writeBuffered(true)\n\t\tif t.writer != nil {','\t\tt.writeBuffered(false)\n\t\tif t.writer != nil {',
+  'R20.3','close: flush before closing','incomplete tail not forced out')
+m('C20','close-keeps-writer',DW,
+  '\t\t\tt.writer.Close()\n\t\t\tt.writer = nil','\t\t\tt.writer.Close()',
+  'R20.3','close: the closed writer is forgotten','frames written to a closed writer')
+m('C20','conn-close-skips',DW,
+  '\tconn.mu.Lock()\n\ttracks := conn.close()\n\tconn.mu.Unlock()','\tconn.mu.Lock()\n\ttracks := conn.tracks\n\tconn.mu.Unlock()',
+  'R20.3','diskConn.Close always closes the file','departure of the publisher leaves the file open and unflushed')
+m('C20','client-close-first-only',DW,
+  '\tfor _, down := range client.down {\n\t\tdown.Close()\n\t}\n\tclient.down = nil','\tfor _, down := range client.down {\n\t\tdown.Close()\n\t\tbreak\n\t}\n\tclient.down = nil',
+  'R20.3','Client.Close closes every recording','only one recording closed when recording stops') if False else None
+m('C20','pushconn-drops-old',DW,
+  '\told := client.down[id]\n\tif old != nil {\n\t\told.Close()\n\t\tdelete(client.down, id)\n\t}','\told := client.down[id]\n\tif old != nil {\n\t\tdelete(client.down, id)\n\t}',
+  'R20.3','PushConn closes the connection','a removed connection is never flushed or closed')
+m('C20','write-without-origin',DW,
+  '\t\tif !valid(t.origin) {\n\t\t\tlog.Println("Invalid origin")\n\t\t\treturn nil\n\t\t}\n','',
+  'R20.4','write only with a valid origin','block time computed from origin 0')
+m('C20','write-without-writer',DW,
+  '\t\tif t.writer == nil {\n\t\t\tcontinue\n\t\t}\n\n\t\tif !valid(t.origin) {','\t\tif !valid(t.origin) {',
+  'R20.4','write only with a writer','nil writer dereferenced before the container exists')
+m('C20','write-other-timestamp',DW,
+  '\t\ttm := (ts - value(t.origin)) /','\t\ttm := (t.savedKfTs() - value(t.origin)) /',
+  'R20.4','block time','') if False else None
+m('C20','time-not-relative',DW,
+  '\t\ttm := (ts - value(t.origin)) /','\t\ttm := (ts + value(t.origin)) /',
+  'R20.4','block time','origin added instead of subtracted')
+m('C20','stale-sample',DW,
+  '\t\t\tsample, ts = t.builder.ForcePopWithTimestamp()','\t\t\tsample, _ = t.builder.ForcePopWithTimestamp()',
+  'R20.4','data and timestamp come from one pop','forced samples written with the previous sample\'s timestamp')
+m('C20','writer-set-elsewhere',DW,
+  '\tt.remoteNTP = ntp\n\tt.remoteRTP = rtp\n}','\tt.remoteNTP = ntp\n\tt.remoteRTP = rtp\n\tif ntp == 0 {\n\t\tt.writer = nil\n\t}\n}',
+  'R20.4','writers installed only by initWriter','writer dropped without closing: file never finalised')
+m('C20','video-starts-anywhere',DW,
+  '\t\t\tif keyframe {\n\t\t\t\tw, h := gcodecs.KeyframeDimensions(','\t\t\tif keyframe || t.writer == nil {\n\t\t\t\tw, h := gcodecs.KeyframeDimensions(',
+  'R20.4','a video container is started only at a keyframe','recording starts with an undecodable delta frame')
+m('C20','keyframe-flag-constant',DW,
+  '\t\t\t\tkeyframe = (ts == t.savedKf.Timestamp)','\t\t\t\tkeyframe = (t.savedKf.Timestamp != 0)',
+  'R20.4','a sample is a keyframe iff','every block after the first keyframe flagged as keyframe')
+m('C20','fetch-includes-current',DW,
+  '\t\t\t\tfor i := uint16(1); i < count; i++ {','\t\t\t\tfor i := uint16(1); i <= count; i++ {',
+  'R20.5','recovered numbers lie before the current packet','the current packet is also recovered: frame written twice')
+m('C20','fetch-includes-last',DW,
+  '\t\t\t\tfor i := uint16(1); i < count; i++ {','\t\t\t\tfor i := uint16(0); i < count; i++ {',
+  'R20.5','recovered numbers lie after the last packet','the last packet is recovered again')
+m('C20','last-not-advanced',DW,
+  '\t\t\t} else {\n\t\t\t\trequestKeyframe(t)\n\t\t\t}\n\t\t\tt.lastSeqno = some(uint32(p.SequenceNumber))','\t\t\t} else {\n\t\t\t\trequestKeyframe(t)\n\t\t\t}',
+  'R20.5','the current number becomes the last','the same gap is recovered over and over')
+m('C20','vp9-declared-vp8',DW,
+  '\t\t\t\tCodecID:     "V_VP9",','\t\t\t\tCodecID:     "V_VP8",',
+  'R20.6','codec id and track type per codec','VP9 track declared as VP8')
+m('C20','audio-track-type',DW,
+  '\t\t\t\tCodecID:     "A_OPUS",\n\t\t\t\tTrackType:   2,','\t\t\t\tCodecID:     "A_OPUS",\n\t\t\t\tTrackType:   1,',
+  'R20.6','codec id and track type per codec','audio declared as a video track')
+m('C20','desc-number-off',DW,
+  '\t\t\t\tTrackNumber: uint64(i + 1),\n\t\t\t\tTrackEntry:  entry,','\t\t\t\tTrackNumber: uint64(i + 2),\n\t\t\t\tTrackEntry:  entry,',
+  'R20.6','track numbers are position+1','description and entry disagree')
+m('C20','writers-reversed',DW,
+  '\tfor i, t := range conn.tracks {\n\t\tt.writer = ws[i]\n\t}','\tfor i, t := range conn.tracks {\n\t\tt.writer = ws[len(ws)-1-i]\n\t}',
+  'R20.6','block writers are assigned to tracks in description order','audio written into the video track')
+m('C20','h264-as-webm',DW,
+  '\t\t\tisWebm = false\n','',
+  'R20.6','H.264 recordings are declared as Matroska','H.264 in a file declared WebM')
+m('C20','benign-fetch-rename',DW,
+  '\tn := t.remote.GetPacket(seqno, buf, false)\n\tif n == 0 {\n\t\treturn\n\t}\n\tp := new(rtp.Packet)\n\terr := p.Unmarshal(buf[:n])',
+  '\tlength := t.remote.GetPacket(seqno, buf, false)\n\tif length < 1 {\n\t\treturn\n\t}\n\tp := &rtp.Packet{}\n\terr := p.Unmarshal(buf[:length])',
+  '','','equivalent rewrite of fetch',benign=True)
